@@ -84,9 +84,12 @@ def run_property(prop, a, seed, t0):
             elif vc["status"] == "disagree":
                 crashes.append((key[0], f"solver disagreement on {vc['name']} @ {vc['path']}: {vc['note']}"))
             else:
-                undecided.append((key[0], f"{vc['name']} @ {vc['path']}: solver {vc['status']} {vc['note']}"))
+                undecided.append((key[0], f"{vc['name']} @ {vc['path']}: solver {vc['status']} {vc['note']}", key))
         if ok:
             n_discharged += 1
+    # an obligation that already fails with a listed finding is not additionally 'undecided' on its other paths
+    known_keys = {k for kf, k, vc in known_hits}
+    undecided = [u for u in undecided if not (len(u) > 2 and u[2] in known_keys)]
     for key, vcs in covers.items():
         if "/cover:raises-" in key[1]:
             continue  # an exceptional exit that is never taken is not vacuity
@@ -195,7 +198,7 @@ def run_property(prop, a, seed, t0):
             "not_decided": meta.get("not_decided", []),
             "known_findings": sorted(seen_kf),
             "known_finding_obligations": sorted(f"{a_}::{b_}" for a_, b_ in known_obl),
-            "undecided": [f"{u}: {m}" for u, m in undecided][:40],
+            "undecided": [f"{u[0]}: {u[1]}" for u in undecided][:40],
             "failed": [f"{k[0]}::{vc['name']} @ {vc['path']}" for k, vc in failed][:40],
             "samples": samples,
             "explanation": meta.get("explanation", ""),
@@ -218,8 +221,8 @@ def run_property(prop, a, seed, t0):
         for key, vcs in obligations.items():
             st = sorted({v["status"] for v in vcs})
             print(f"  {st} {key[0]}::{key[1]} ({len(vcs)} paths)")
-    for u, m in undecided[:30]:
-        print(f"UNDECIDED {u}: {m}")
+    for u in undecided[:30]:
+        print(f"UNDECIDED {u[0]}: {u[1]}")
     for u, m in crashes[:10]:
         print(f"CRASH {u}: {m}")
     for e in extra:
